@@ -109,6 +109,83 @@ def _ruletz():
 RULETZ = RuleTZ()
 
 
+class IntSub(int):
+    """a proper subclass of int (what enum.IntEnum / IntFlag members are)"""
+
+    def __repr__(self):
+        return 'IntSub(%d)' % int(self)
+
+
+class CIStr(str):
+    """a str subclass with user-defined equality: compares and hashes case-insensitively
+    (after Unicode case folding) and ignoring surrounding whitespace - two different
+    character sequences can be 'equal'"""
+
+    def _k(self):
+        return str.casefold(str.strip(self))
+
+    def __eq__(self, other):
+        return isinstance(other, str) and self._k() == CIStr._k(other)
+
+    def __ne__(self, other):
+        return not self == other
+
+    def __hash__(self):
+        return hash(self._k())
+
+    def __repr__(self):
+        return 'CIStr(%s)' % str.__repr__(self)
+
+
+class LazyProxy:
+    """a transparent proxy of the LocalProxy / SimpleLazyObject kind: isinstance() follows
+    __class__ to the target's type, type() is always LazyProxy"""
+
+    def __init__(self, target):
+        object.__setattr__(self, '_t', target)
+
+    __class__ = property(lambda self: type(object.__getattribute__(self, '_t')))
+
+    def __getattr__(self, name):
+        return getattr(object.__getattribute__(self, '_t'), name)
+
+    def __len__(self):
+        return len(object.__getattribute__(self, '_t'))
+
+    def __iter__(self):
+        return iter(object.__getattribute__(self, '_t'))
+
+    def __bool__(self):
+        return bool(object.__getattribute__(self, '_t'))
+
+    def __getitem__(self, k):
+        return object.__getattribute__(self, '_t')[k]
+
+    def __contains__(self, k):
+        return k in object.__getattribute__(self, '_t')
+
+    def __eq__(self, other):
+        return object.__getattribute__(self, '_t') == other
+
+    def __hash__(self):
+        return hash(repr(object.__getattribute__(self, '_t')))
+
+    def __repr__(self):
+        return 'LazyProxy(%r)' % (object.__getattribute__(self, '_t'),)
+
+
+class ReentrantDict(dict):
+    """a dict whose items() calls back into application code (the hook) before answering -
+    what a logging handler, a signal handler, a finaliser or a lazy mapping does when it
+    uses the library again while the library is using it"""
+    hook = None
+
+    def items(self):
+        if ReentrantDict.hook is not None:
+            ReentrantDict.hook()
+        return dict.items(self)
+
+
 class Opaque:
     """Stand-in for 'some arbitrary object' in wrong-type generators."""
 
@@ -123,6 +200,14 @@ class Opaque:
 
 
 def to_json(v):
+    if type(v) is ReentrantDict:
+        return {'$reentrant': to_json(dict(v))}
+    if type(v) is IntSub:
+        return {'$intsub': int(v)}
+    if type(v) is CIStr:
+        return {'$cistr': str(v)}
+    if type(v) is LazyProxy:
+        return {'$proxy': to_json(object.__getattribute__(v, '_t'))}
     if v is None or isinstance(v, (bool, str)):
         return v
     if isinstance(v, int):
@@ -177,6 +262,14 @@ def from_json(j):
         return [from_json(x) for x in j]
     if isinstance(j, dict):
         (tag, val), = j.items()
+        if tag == '$reentrant':
+            return ReentrantDict(from_json(val))
+        if tag == '$intsub':
+            return IntSub(val)
+        if tag == '$cistr':
+            return CIStr(val)
+        if tag == '$proxy':
+            return LazyProxy(from_json(val))
         if tag == '$f':
             return float.fromhex(val) if val not in ('nan', 'inf', '-inf') \
                 else float(val)
@@ -290,6 +383,10 @@ def canon(v):
     if v is None:
         return ('None',)
     t = type(v)
+    if t is IntSub:
+        return ('int', int(v))
+    if t is CIStr:
+        return ('str', str(v))
     if t is bool:
         return ('bool', v)
     if t is int:
@@ -324,7 +421,7 @@ def canon(v):
         return ('list', tuple(canon(x) for x in v))
     if t is tuple:
         return ('tuple', tuple(canon(x) for x in v))
-    if t is dict:
+    if t is dict or t is ReentrantDict:
         return ('dict', tuple(sorted(((canon(k), canon(x))
                                       for k, x in v.items()), key=repr)))
     if t is time.struct_time:
